@@ -382,6 +382,8 @@ fn drive_scalars(sink: &mut Sink, rng: &mut Rng, n: usize) {
     } else {
         // boundaries, ASCII white space, and the invisible / formatting characters a "tolerant" reader might strip
         let mut v: Vec<u32> = vec![0xA, 0xB, 0xC, 0xD, 0x85, 0xA0, 0xAD, 0x180E, 0x200B, 0x200C, 0x200D, 0x200E, 0x200F, 0x2028, 0x2029, 0x202F, 0x2060, 0x3000, 0xFEFF, 0xFFFE,
+                                   // capitals without a lower-case mapping, special case mappings, ligatures
+                                   0x2102, 0x2115, 0x2124, 0x3D2, 0x1D400, 0x1D49C, 0x1D7CA, 0xDF, 0x1E9E, 0x3A3, 0x3C2, 0x345, 0xFB00, 0xFB06, 0x1F88, 0x1FBC, 0x2160, 0x24B6, 0x10400,
                                    0, 9, 0x1F, 0x20, 0x25, 0x2F, 0x7F, 0x80, 0xC6, 0xDF, 0x130, 0x131, 0x17F, 0x1C5, 0x3A3, 0x7FF, 0x800, 0x212A, 0x24B6,
                                    0xD7FF, 0xE000, 0xFF21, 0xFFFD, 0xFFFF, 0x10000, 0x10400, 0x1E900, 0x10FFFF];
         v.extend(low_byte_lookalikes());
